@@ -14,7 +14,10 @@
 //
 // Ordinary integration test, public API only: copy into tests/ of a copy of the tree,
 //   cargo test --offline --test demo_topdocs_merge_tie_break -- --nocapture
-// Recorded 2026-09-26 on /repo (HEAD of the pinned tree):
+// FIXED in /repo afterwards (commit "fix: TopDocs merge across segments broke ties on equal sort keys by push order instead of doc address":
+// merge_top_k collects the items and sorts them by doc before the push loop); unit topn_for_segment now proves merge_top_k against the
+// ascending-push precondition and its mutant merge_sort_removed.patch restores the defect.  (This test was not re-run after the fix.)
+// Recorded 2026-09-26 on /repo BEFORE the fix:
 //   top9_by_fast_field_breaks_ties_by_ascending_address  FAILED
 //     9th hit returned: (Some(1), DocAddress { segment_ord: 2, doc_id: 2 })
 //     9th entry of the complete list: (Some(1), DocAddress { segment_ord: 2, doc_id: 0 })   (same key, smaller address, not returned at all)
